@@ -33,10 +33,15 @@ def texts_for(u, v):
         # texts that are the same in every document (nothing in them names the document)
         "PROGRAM same_text_lex\nVAR x : INT; END_VAR\n  x := ?;\nEND_PROGRAM\n",
         "PROGRAM same_text_syn\nVAR x : INT END_VAR\nEND_PROGRAM\n",
+        # a document whose problem is found at the end of the text (the program is never closed), and the same document
+        # with nothing but blank lines and blanks added at its end: the end has moved
+        "PROGRAM O_%s\nVAR x : INT; END_VAR\nx := 1;\n" % u,
+        "PROGRAM O_%s\nVAR x : INT; END_VAR\nx := 1;\n\n\n  \n" % u,
     ]
 
 
-TEXT_NAMES = ["valid", "lexical", "syntax", "semantic", "depends", "shared", "many", "same-lexical", "same-syntax"]
+TEXT_NAMES = ["valid", "lexical", "syntax", "semantic", "depends", "shared", "many", "same-lexical", "same-syntax", "open-end",
+              "open-end-blank-lines"]
 
 
 def diag_key(d):
@@ -50,12 +55,21 @@ class World:
     STYLES = {"plain": ("docs", "%s.st"), "space": ("my docs", "prog %s.st"), "nonascii": ("dökü", "café_%s.st"),
               "mixed": ("Docs.v1", "A+%s (copy).ST"), "casetwin": ("twins", "unit.st")}
 
-    def __init__(self, tmp, style="plain"):
+    def __init__(self, tmp, style="plain", workspace=None):
+        """workspace: None (the server is started without a workspace folder), "plain" (the documents' directory is the
+        workspace folder: what is on disk there when the server starts is part of the project) or "symlink" (the same,
+        and the folder is reached through a symbolic link - the way the client names it is the way its files are named)"""
         import urllib.parse
         self.tmp = tmp
         self.style = style
+        self.workspace = workspace
         dname, fpat = self.STYLES[style]
         self.root = os.path.join(tmp, dname)
+        if workspace == "symlink":
+            real = os.path.join(tmp, "real-" + dname)
+            os.makedirs(real, exist_ok=True)
+            if not os.path.islink(self.root):
+                os.symlink(real, self.root)
         os.makedirs(self.root, exist_ok=True)
         self.fname = {u: fpat % u for u in "abc"} if "%s" in fpat else {"a": fpat, "b": fpat.capitalize(), "c": fpat.upper()}
         # the URI is the percent-encoded path, as editors send it
@@ -79,6 +93,15 @@ class World:
         pubs = [m for m in before if m.get("method") == "textDocument/publishDiagnostics"]
         return resp, pubs
 
+    def write_disk(self, state):
+        for f in os.listdir(self.root):
+            os.unlink(os.path.join(self.root, f))
+        for other, text in state.items():
+            open(os.path.join(self.root, self.fname[other]), "w").write(text)
+
+    def session(self):
+        return lsp.Session(self.tmp, workspace=self.root if self.workspace else None)
+
     def reference(self, state, u):
         """state: dict u -> text; the set of answers fresh servers give for document u opened last."""
         key = (tuple(sorted(state.items())), u)
@@ -86,7 +109,9 @@ class World:
             return self.ref_cache[key]
         answers = set()
         for _ in range(3):
-            s = lsp.Session(self.tmp)
+            if self.workspace:
+                self.write_disk(state)      # a fresh server finds the current contents in its workspace folder
+            s = self.session()
             v = 1
             for other, text in sorted(state.items()):
                 if other != u:
@@ -108,13 +133,8 @@ class World:
         key = (tuple(sorted(state.items())), u)
         if key in self.cli_cache:
             return self.cli_cache[key]
-        d = os.path.join(self.tmp, "clidocs")
-        shutil.rmtree(d, ignore_errors=True)
         # the CLI must see the same paths: write into the docs directory itself
-        for f in os.listdir(self.root):
-            os.unlink(os.path.join(self.root, f))
-        for other, text in state.items():
-            open(os.path.join(self.root, self.fname[other]), "w").write(text)
+        self.write_disk(state)
         answers = set()
         for _ in range(3):
             r = core.run_cli(["check", self.root], self.tmp)
@@ -134,12 +154,17 @@ class World:
         return answers
 
 
-def check_history(world, history, res, tag, versions="increasing"):
+def check_history(world, history, res, tag, versions="increasing", on_disk=None):
     """history: list of (op, u, text index or text).  versions: how the client numbers them - 'increasing' (one
     counter), 'per-document' (each document restarts at 1 when it is opened again, as editors do after a close),
     'constant' (always 1) or 'arbitrary' (any integer, also lower than before)."""
-    s = lsp.Session(world.tmp)
     state = {}
+    if world.workspace:
+        # on_disk: what the workspace folder holds when the server starts (u -> text): part of the project from the start
+        state = dict(on_disk or {})
+        world.write_disk(state)
+        res.count("workspace:" + world.workspace)
+    s = world.session()
     version = 0
     per_doc = {}
     vr = core.rng_for("versions", tag, str(history)[:200])
@@ -296,6 +321,25 @@ def shard(shard_i, nshards, payload):
                 res.count("three-document-histories")
                 if ok:
                     res.distinct.add(core.key_of("three", j, world.style))
+        # the documents' directory as workspace folder (named plainly or through a symbolic link): the files it holds when
+        # the server starts belong to the project; opening one of them, editing it, opening a new one
+        for wi, wmode in enumerate(["plain", "symlink"]):
+            if (shard_i + wi) % 2 and nshards > 1:
+                continue
+            wtmp = os.path.join(tmp, "ws-%s" % wmode)
+            os.makedirs(wtmp, exist_ok=True)
+            wworld = World(wtmp, world.style if world.style != "casetwin" else "plain", workspace=wmode)
+            wt = wworld.texts
+            for hj, (disk, h) in enumerate([
+                ({"a": wt["a"][0], "b": wt["b"][4]}, [("open", "b", 4), ("change", "b", 3), ("change", "b", 4), ("open", "a", 0), ("change", "a", 1)]),
+                ({"a": wt["a"][0]}, [("open", "b", 4), ("open", "a", 0), ("change", "a", 2), ("change", "a", 0)]),
+                ({"a": wt["a"][0], "b": wt["b"][0]}, [("open", "a", 3), ("open", "c", 0), ("change", "a", 0)]),
+                ({"a": wt["a"][5], "b": wt["b"][0]}, [("open", "b", 5), ("change", "b", 0), ("open", "a", 5)]),
+            ]):
+                ok = check_history(wworld, h, res, "workspace-" + wmode, policies[(hj + shard_i) % 4], on_disk=disk)
+                res.count("workspace-histories")
+                if ok:
+                    res.distinct.add(core.key_of("workspace", wmode, hj, wworld.style))
         # random longer histories over generated documents
         for i in range(shard_i, payload["n_random"], nshards):
             rng = core.rng_for(payload["seed"], "c11rand", i)
@@ -312,6 +356,13 @@ def shard(shard_i, nshards, payload):
                 docs[u].append(world.texts[u][rng.choice([1, 2])])
                 docs[u].append(world.texts[u][5])
                 docs[u].append(world.texts[u][5])
+                # the same documents with white space added or removed at their end only
+                for base in list(docs[u][:6]):
+                    docs[u].append(base + rng.choice(["\n", "\n\n\n", "   ", "\t\n", " \r\n"]))
+                    docs[u].append(base.rstrip())
+                docs[u].append(world.texts[u][9])
+                docs[u].append(world.texts[u][10])
+                docs[u].append(world.texts[u][9] + "\n")
                 # same-length re-layouts of the documents (a line break moved): positions change, the size does not
                 for base in list(docs[u]):
                     k1 = base.find("\n")
